@@ -67,7 +67,12 @@ LEVEL_TEXT = (
     "name-level: touch_leaves_records, dstore_leaves_records). SEQUENCES (several handlers' operations accumulated in one patch, the way a cycle uses "
     "the storages): the isolation theorems hold for ANY accumulated patch and so compose; spelled out as pending_store_survives_purge "
     "(annotations: a pending record is read back although another handler is purged in the same patch), status_record_survives_other_purge / "
-    "_other_store (status storage, at the level of fetch: a purge that withdraws a pending record leaves the others alone). ORACLE/TIE ONLY (no theorem): 'identical across restarts' (fresh object, "
+    "_other_store (status storage, at the level of fetch: a purge that withdraws a pending record leaves the others alone); THE RECORD STORED LAST IS THE RECORD READ, "
+    "whatever the object carries (the very record that is stored, for instance) and whatever the cycle put into the patch before — last_store_wins_ann / last_purge_wins_ann: after ANY "
+    "sequence of stores and purges of any handlers (the handler itself included) and of touches in one patch (runAnnOps), the annotations storage reads the record stored last / nothing "
+    "after a purge that comes last; restore_after_purge_ann, restore_after_store_ann = the two shortest instances; store_skip_unchanged_witness: the variant of store() that does not "
+    "re-send an annotation the object already holds (annStoreSkipUnchanged = seeded change C16f) loses the record after a purge in the same patch and reads the OTHER record after a store "
+    "in the same patch. ORACLE/TIE ONLY (no theorem): 'identical across restarts' (fresh object, "
     "fresh interpreter with another hash seed, golden names incl. re-edged ones), unicode/JSON codec, that clear keeps everything that is "
     "NOT the storages' own (annotation level: clear_keeps_foreign; other stanzas: tie + oracle, modulo the empty stanzas the cleaners drop), Multi / Smart compositions and the "
     "diff-base storages on objects with hidden status fields (status leaf: theorems above; the rest: generated ten ways, compared with the model and "
@@ -108,6 +113,11 @@ THEOREMS = [
     ("Kopf.Props.C16", "Kopf.C16.isolation_other_handler"),
     ("Kopf.Props.C16", "Kopf.C16.isolation_other_handler_purge"),
     ("Kopf.Props.C16", "Kopf.C16.pending_store_survives_purge"),
+    ("Kopf.Props.C16", "Kopf.C16.last_store_wins_ann"),
+    ("Kopf.Props.C16", "Kopf.C16.last_purge_wins_ann"),
+    ("Kopf.Props.C16", "Kopf.C16.restore_after_purge_ann"),
+    ("Kopf.Props.C16", "Kopf.C16.restore_after_store_ann"),
+    ("Kopf.Props.C16", "Kopf.C16.store_skip_unchanged_witness"),
     ("Kopf.Props.C16", "Kopf.C16.status_record_survives_other_purge"),
     ("Kopf.Props.C16", "Kopf.C16.status_record_survives_other_store"),
     ("Kopf.Props.C16", "Kopf.C16.touch_leaves_records"),
@@ -176,6 +186,11 @@ RULE = ("scenario = storage configuration (Annotations/Status/Smart/Multi as TRE
         "(store-store-purge within one patch injected; storages reading the status stanza first over-represented), judged against a dictionary "
         "(id -> last record) after every applied patch and after a final purge of everything in one patch; sequences whose ids share a name "
         "(known classes F6b/d/e/g) are compared with the model but not judged. "
+        "VALUES COME BACK: in the sequences every id draws its records from a small pool (its own earlier records, another id's), the last-handled states from a pool as well, and half of "
+        "the sequences get an injected history 'A stored and applied; then, in one patch, purge / another record B / both, then A again' (or A then purge / B; the same for the last-handled "
+        "state; with a touch in between) — so what is written is often EQUAL to what the object carries or to what is pending, next to something else pending for the same place "
+        "(histogram seq_value_comes_back); every single-id scenario stores its record AGAIN on the object that now carries it, into a patch that holds a purge / another record / both "
+        "for the handler (store-again, 4 ways), and stores the last-handled state again after another one in the same patch (dstore-again): judged (the one stored last is read), compared with the model. "
         "keys run: (prefix of 1..189 chars incl. 52..56, id) with the id's first/last character from alnum / each of ._-/<>: / non-ASCII "
         "alphanumerics (é ١ ß ²), lengths 0, 1..3, around the V1 room and its cut, 55..57, 62..64, long; a bad character placed at the cut "
         "position; all-special ids; direct make_edged_name calls with crafted names (already-hashed, empty, max_length <= 7 and negative)")
@@ -1026,6 +1041,7 @@ def gen_scenario(rng, big: bool = False) -> dict:
             "other_records": [gen_record(rng)[0] for _ in others],
             "other_has_record": [rng.random() < 0.65 for _ in others], "record": rec, "rkind": rkind, "old": old,
             "corrupt": corrupt, "legacy": legacy, "prior": prior, "touch": rng.choice([None, "2020-12-31T23:59:59.000001", "значение", ""]),
+            "restore": rng.choice(["after-purge", "after-record", "after-record-and-purge", "after-purge-and-record", "after-purge", "after-record"]),
             "dstorage": dspec, "essence": essence}
 
 
@@ -1345,6 +1361,42 @@ def run_scenario(sc: dict, out: Out, with_driver: bool = True) -> None:
         check_isolation(out, sc, S, "store", k, mk, others, drs, before0, body1, before_others, own_names, prefixes, xstatus, desc, Body, classify_pair)
         if collided:
             tags["collided"] = True
+    # ---- B2. the record is stored AGAIN on the object that now carries it, into a patch that holds something else for the
+    # ---- handler (a purge, another record, both): "whatever record is stored ... is read back identically from the patched
+    # ---- object" speaks about the record stored LAST, whatever the object and the patch held before
+    how = sc.get("restore") or ("after-purge", "after-record", "after-record-and-purge", "after-purge-and-record")[(len(k) + len(rec)) % 4]
+    if r[0] == "ok" and p1 is not None and not corrupt:
+        other_rec = {kk: ("2019-12-31T23:59:59.999999" if kk in ("started", "stopped", "delayed") else
+                          (7 if not isinstance(v, int) or isinstance(v, bool) else v + 1)) for kk, v in rec.items()}
+        other_rec.setdefault("retries", 41)
+        p = new_patch()
+        pre_ok = True
+        for stp in how.split("-")[1:]:
+            if stp == "purge":
+                pre_ok = pre_ok and call(S.purge, key=k, body=Body(body1), patch=p)[0] == "ok"
+            elif stp == "record":
+                pre_ok = pre_ok and call(S.store, key=k, record=copy.deepcopy(other_rec), body=Body(body1), patch=p)[0] == "ok"
+        pin7 = jsonable(dict(p))
+        r7 = call(S.store, key=k, record=copy.deepcopy(rec), body=Body(body1), patch=p)
+        p7 = jsonable(dict(p)) if r7[0] == "ok" else None
+        if with_driver:
+            out.ask("store-again", ["C16.store", tdesc, sfx_table([k]), body1, pin7, k, sc["record"]], ["ok", p7] if r7[0] == "ok" else r7)
+        if judge and writes and pre_ok and tags.get("roundtrip"):
+            tags["restore"] = how
+            if r7[0] != "ok":
+                out.fail(f"storing the record of {k!r} again ({how}) raises {r7[1]} on a well-formed object",
+                         classify_one(mk, "store", "operation raises on a well-formed object"))
+            else:
+                body7 = merge_patch(body1, p7)
+                f7 = call(S.fetch, key=k, body=Body(body7))
+                got7 = f7[1] if f7[0] == "ok" else f7
+                verbose7 = bool(xdesc and xdesc[0]["t"] == "ann" and xdesc[0]["verbose"])
+                if f7[0] != "ok" or got7 is None or differs(drop_nulls(jsonable(got7)), jsonable(drop_nulls(rec))) \
+                        or (verbose7 and differs(jsonable(got7), jsonable(rec))):
+                    out.fail(f"the record stored last is not read back ({how}, in one patch, on the object that carries the record): "
+                             f"stored {drop_nulls(rec)!r}, fetched {got7!r}",
+                             {"site": "store/fetch", "shape": "round-trip mismatch: the record stored last, after something else was pending for the handler"})
+                check_isolation(out, sc, S, "store-again", k, mk, others, drs, body1, body7, fetch_all(body1), own_names, prefixes, xstatus, desc, Body, classify_pair)
     # ---- C. purge ---------------------------------------------------------------------------------
     p = new_patch()
     r2 = call(S.purge, key=k, body=Body(body1), patch=p)
@@ -1497,6 +1549,24 @@ def run_scenario(sc: dict, out: Out, with_driver: bool = True) -> None:
                     if probs:
                         out.fail(f"invalid diff-base annotation name {full!r}",
                                  classify_name(full, leaf.prefix, leaf.key + ("-ofDRS" if drs else ""), "v2" if i == 0 else "v1", probs))
+            # the same state stored again on the object that carries it, after another one was put into the same patch
+            # (the last one stored is the one read back)
+            essence2 = sort_keys_deep({"spec": {"other": "state"}, "metadata": {"labels": {"x": "y"}}})
+            p = new_patch()
+            ra = call(D.store, body=Body(body6), patch=p, essence=copy.deepcopy(essence2))
+            pin8 = jsonable(dict(p))
+            r8 = call(D.store, body=Body(body6), patch=p, essence=copy.deepcopy(essence))
+            if with_driver and ra[0] == "ok":
+                out.ask("dstore-again", ["C16.dstore", ddesc, sfx_table(dkeys), body6, pin8, essence], ["ok", jsonable(dict(p))] if r8[0] == "ok" else r8)
+            if ra[0] != "ok" or r8[0] != "ok":
+                out.fail(f"storing the last-handled state again raises {(ra if ra[0] != 'ok' else r8)[1]} on a well-formed object",
+                         {"site": "diffbase store/fetch", "shape": "operation raises on a well-formed object"})
+            else:
+                f8 = call(D.fetch, body=Body(merge_patch(body6, jsonable(dict(p)))))
+                if differs(jsonable(f8), ["ok", essence]):
+                    out.fail(f"the last-handled state stored last (after another one in the same patch, on the object that carries it) is not "
+                             f"read back: stored {essence!r}, fetched {f8!r}",
+                             {"site": "diffbase store/fetch", "shape": "round-trip mismatch: the state stored last, after another one was pending"})
             dprefixes = [d["prefix"] for d in xdann]
             dstatus = [XLeaf(tuple(d["field"])) for d in xddesc if d["t"] == "status"]
             check_foreign(out, "diffbase-store", merge_patch(body0, pin), body6, dprefixes, dstatus, touch=False)
@@ -1914,19 +1984,72 @@ def gen_sequence(rng) -> dict:
     body, flags = gen_body(rng, prefixes)
     dspec = gen_dstorage_spec(rng, prefixes[0] if prefixes else "kopf.zalando.org")
 
+    # VALUES COME BACK: a handler that is retried, a timer, a daemon stores the very record the object already carries (or the
+    # one it stored a moment ago), and the last-handled state of an unchanged object is the one already stored.  Every id draws
+    # from a small pool of records (its own earlier ones, sometimes another id's), the essences from a pool as well: what is
+    # written is then often EQUAL to what the object holds or to what is pending in the patch — next to something else
+    # pending for the same place (another record, a purge).
+    pools: dict[int, list] = {}
+    used: list = []
+    essences: list = []
+
+    def a_record(i: int) -> list:
+        r = rng.random()
+        mine = pools.setdefault(i, [])
+        if mine and r < 0.45:
+            return copy.deepcopy(rng.choice(mine))
+        if used and r < 0.52:
+            rec = copy.deepcopy(rng.choice(used))          # the same content under another id
+        else:
+            rec = gen_full_record(rng)
+        mine.append(rec)
+        used.append(rec)
+        return copy.deepcopy(rec)
+
+    def an_essence() -> Any:
+        if essences and rng.random() < 0.4:
+            return copy.deepcopy(rng.choice(essences))
+        e = sort_keys_deep({"spec": {"field": gen_value(rng), "n": rng.randint(0, 9)}})
+        essences.append(e)
+        return copy.deepcopy(e)
+
     def one_op() -> list:
         r = rng.random()
         i = rng.randrange(len(ids))
         if r < 0.40:
-            return ["store", i, gen_full_record(rng)]
+            return ["store", i, a_record(i)]
         if r < 0.65:
             return ["purge", i]
         if r < 0.72:
             return ["touch", rng.choice([None, "2020-12-31T23:59:59.000001", "значение", ""])]
         if r < 0.82:
-            return ["dstore", sort_keys_deep({"spec": {"field": gen_value(rng), "n": rng.randint(0, 9)}})]
+            return ["dstore", an_essence()]
         return ["commit"]
     ops = [one_op() for _ in range(rng.randint(4, 16))]
+    if rng.random() < 0.5:
+        # the object carries record A of a handler (a patch was applied); in the next patch the handler's place holds something
+        # else — another record, a purge, both — before A is stored again; or A is stored and then withdrawn / overwritten.
+        # The same for the last-handled state.  What is read after the patch is what the LAST operation left.
+        i = rng.randrange(len(ids))
+        A, B = a_record(i), gen_full_record(rng)
+        how = rng.choice(["purge-A", "B-A", "B-purge-A", "purge-B-A", "A-purge", "A-B", "A-purge-A", "essence", "touch"])
+        if how == "essence":
+            E, E2 = an_essence(), sort_keys_deep({"spec": {"n": rng.randint(10, 99), "other": gen_value(rng)}})
+            tail = [["dstore", E2], ["dstore", copy.deepcopy(E)]] if rng.random() < 0.7 else [["dstore", copy.deepcopy(E)], ["dstore", E2]]
+            mid = [["dstore", E], ["commit"]] + tail
+        elif how == "touch":
+            tv = rng.choice(["2020-12-31T23:59:59.000001", "значение"])
+            mid = [["store", i, A], ["touch", tv], ["commit"], ["purge", i], ["touch", tv], ["store", i, copy.deepcopy(A)]]
+        else:
+            step = {"A": lambda: ["store", i, copy.deepcopy(A)], "B": lambda: ["store", i, copy.deepcopy(B)], "purge": lambda: ["purge", i]}
+            mid = [["store", i, A], ["commit"]] + [step[s]() for s in how.split("-")]
+            if rng.random() < 0.3:
+                mid.insert(rng.randint(2, len(mid)), rng.choice([["touch", "значение"], ["dstore", an_essence()],
+                                                                   ["store", (i + 1) % len(ids), a_record((i + 1) % len(ids))]]))
+        if rng.random() < 0.5:
+            mid.append(["commit"])
+        at = rng.randint(0, len(ops))
+        ops[at:at] = mid
     if rng.random() < 0.6 and len(ids) >= 2:
         # what every cycle does: records of several handlers pending in the patch, one of them finished and purged at once
         a, b = rng.sample(range(len(ids)), 2)
@@ -2003,6 +2126,9 @@ def run_sequence(sc: dict, out: Out, with_driver: bool = True) -> None:
     dkeys = [d["key"] for d in xdann]
     tkeys = [d["touch_key"] for d in xann]
     commits = [0]
+    committed: dict[int, Any] = {}          # what the object carries (the dictionary at the last applied patch)
+    committed_essence: list[Any] = [None]
+    events: set[str] = set()
 
     def verify(when: str) -> None:
         for i, k in enumerate(ids):
@@ -2032,6 +2158,9 @@ def run_sequence(sc: dict, out: Out, with_driver: bool = True) -> None:
         body = merge_patch(body, jsonable(dict(patch)))
         patch = patches.Patch()
         commits[0] += 1
+        committed.clear()
+        committed.update(ref)
+        committed_essence[0] = ref_essence
         verify(when)
 
     def apply(n: int, op: list) -> bool:
@@ -2041,7 +2170,13 @@ def run_sequence(sc: dict, out: Out, with_driver: bool = True) -> None:
             k = ids[op[1]]
             r = call(S.store, key=k, record=rec_dict(op[2]), body=Body(body), patch=patch)
             rq = ["C16.store", tdesc, sfx_table([k]), body, before, k, op[2]]
-            ref[op[1]] = drop_nulls(jsonable(rec_dict(op[2])))
+            newrec = drop_nulls(jsonable(rec_dict(op[2])))
+            if not differs(committed.get(op[1]), newrec):
+                # the record the object already carries is stored again: with or without something else pending for the handler
+                events.add("restore/pending-" + ("nothing" if not differs(ref.get(op[1]), newrec) else ("purge" if ref.get(op[1]) is None else "record")))
+            elif op[1] in ref and not differs(ref.get(op[1]), newrec):
+                events.add("restore/same-as-pending")
+            ref[op[1]] = newrec
         elif op[0] == "purge":
             k = ids[op[1]]
             r = call(S.purge, key=k, body=Body(body), patch=patch)
@@ -2053,6 +2188,8 @@ def run_sequence(sc: dict, out: Out, with_driver: bool = True) -> None:
         elif op[0] == "dstore":
             r = call(D.store, body=Body(body), patch=patch, essence=copy.deepcopy(op[1]))
             rq = ["C16.dstore", ddesc, sfx_table(dkeys), body, before, op[1]]
+            if committed_essence[0] is not None and not differs(committed_essence[0], op[1]):
+                events.add("re-dstore/pending-" + ("nothing" if not differs(ref_essence, op[1]) else "essence"))
             ref_essence = op[1]
         else:
             raise ValueError(op)
@@ -2095,6 +2232,7 @@ def run_sequence(sc: dict, out: Out, with_driver: bool = True) -> None:
                         out.fail(f"after purging every handler, status records of {stay!r} are still on the object",
                                  {**replay_note, "shape": "own status record left after purge"})
     tags["seq_commits"] = commits[0]
+    tags["seq_events"] = sorted(events)
 
 
 # =============================================================================================
@@ -2147,6 +2285,8 @@ def process(scs: list[dict], with_driver: bool) -> dict:
             count("seq_ops", "%02d-%02d" % (len(sc["ops"]) // 5 * 5, len(sc["ops"]) // 5 * 5 + 4))
             count("seq_shape", out.tags.get("shape"))
             count("seq_twins", sc["flags"].get("twins", 0) > 0)
+            for ev in out.tags.get("seq_events") or ["none"]:
+                count("seq_value_comes_back", ev)
             for w in out.what:
                 count("ops", w)
             for what, sig in out.fails:
@@ -2165,7 +2305,7 @@ def process(scs: list[dict], with_driver: bool) -> dict:
         count("record_size", "big" if any(isinstance(v, str) and len(v) > 1000 or isinstance(v, list) and len(v) > 50 for _, v in sc["record"]) else "small")
         count("essence_size", "big" if len(json.dumps(sc["essence"])) > 1000 else "small")
         count("configured_by", "setter" if '"set"' in json.dumps(sc["storage"]) else "constructor")
-        for g in ("shape", "band", "idshape", "rkind", "drs", "corrupt", "hidden", "hashed", "reformed", "twokeys", "others", "legacy", "blank_ids"):
+        for g in ("shape", "band", "idshape", "rkind", "drs", "corrupt", "hidden", "hashed", "reformed", "twokeys", "others", "legacy", "blank_ids", "restore"):
             count(g, out.tags.get(g))
         count("id_length", "%03d-%03d" % (len(sc["id"]) // 20 * 20, len(sc["id"]) // 20 * 20 + 19))
         count("id_edges", ("alnum" if sc["id"][0] in ALNUM else "special") + "/" + ("alnum" if sc["id"][-1] in ALNUM else "special"))
